@@ -284,6 +284,35 @@ type codecOp struct {
 	order string
 	loop  bool
 	pos   token.Pos
+	sub   []token.Pos // positions inside helpers, outermost first, when the op was found through a helper call
+	count int         // for an op in a loop over a fixed-size array: the number of iterations (0 = not known)
+}
+
+// constTrips: b lies in exactly one loop and that loop is a range over an array of constant length: its length.
+func constTrips(f *ssa.Function, b *ssa.BasicBlock) int {
+	n, trips := 0, 0
+	for _, lp := range naturalLoops(f) {
+		if !lp.body[b] {
+			continue
+		}
+		n++
+		if len(lp.header.Instrs) == 0 || lp.header.Comment != "rangeindex.loop" {
+			continue
+		}
+		iff, ok := lp.header.Instrs[len(lp.header.Instrs)-1].(*ssa.If)
+		if !ok {
+			continue
+		}
+		if bo, ok := iff.Cond.(*ssa.BinOp); ok && bo.Op == token.LSS {
+			if k, isK := constInt(bo.Y); isK && k > 0 {
+				trips = int(k)
+			}
+		}
+	}
+	if n == 1 {
+		return trips
+	}
+	return 0
 }
 
 func normType(t types.Type) string {
@@ -298,6 +327,12 @@ func normType(t types.Type) string {
 // codecOps: the sequence of field writes (reads) of f: calls to the module's ErrorWriter.Write/WriteLen16
 // (ErrorReader.Read) and encoding/binary.Write (Read) on in-memory buffers.
 func codecOps(p *Prog, f *ssa.Function, write bool) []codecOp {
+	return codecOpsD(p, f, write, 0)
+}
+
+// codecOpsD: the reads/writes of f in source order; the reads/writes of a helper of the same package count at the
+// place of its call (in a loop if the call is).
+func codecOpsD(p *Prog, f *ssa.Function, write bool, depth int) []codecOp {
 	var ops []codecOp
 	for _, b := range f.Blocks {
 		for _, ins := range b.Instrs {
@@ -308,6 +343,15 @@ func codecOps(p *Prog, f *ssa.Function, write bool) []codecOp {
 			var data, order ssa.Value
 			typ := ""
 			args := call.Call.Args
+			if g := call.Call.StaticCallee(); g != nil && g != f && g.Pkg == f.Pkg && len(g.Blocks) > 0 && depth < 3 {
+				for _, o := range codecOpsD(p, g, write, depth+1) {
+					o.loop = o.loop || inLoop(b)
+					o.sub = append([]token.Pos{o.pos}, o.sub...)
+					o.pos = instrPos(ins)
+					ops = append(ops, o)
+				}
+				continue
+			}
 			if g := call.Call.StaticCallee(); g != nil && p.InModule(g) && g.Signature.Recv() != nil {
 				rn := p.isModuleNamed(g.Signature.Recv().Type())
 				if rn == nil {
@@ -352,10 +396,20 @@ func codecOps(p *Prog, f *ssa.Function, write bool) []codecOp {
 				}
 				typ = normType(t)
 			}
-			ops = append(ops, codecOp{typ: typ, order: orderName(order), loop: inLoop(b), pos: instrPos(ins)})
+			ops = append(ops, codecOp{typ: typ, order: orderName(order), loop: inLoop(b), count: constTrips(f, b), pos: instrPos(ins)})
 		}
 	}
-	sort.SliceStable(ops, func(i, j int) bool { return ops[i].pos < ops[j].pos })
+	sort.SliceStable(ops, func(i, j int) bool {
+		if ops[i].pos != ops[j].pos {
+			return ops[i].pos < ops[j].pos
+		}
+		for k := 0; k < len(ops[i].sub) && k < len(ops[j].sub); k++ {
+			if ops[i].sub[k] != ops[j].sub[k] {
+				return ops[i].sub[k] < ops[j].sub[k]
+			}
+		}
+		return false
+	})
 	return ops
 }
 
@@ -379,7 +433,12 @@ func opsString(ops []codecOp) string {
 	var parts []string
 	for _, o := range ops {
 		s := o.typ
-		if o.loop {
+		if o.loop && o.count > 0 {
+			// a loop over a fixed-size array is the same as that many ops in a row
+			for i := 1; i < o.count; i++ {
+				parts = append(parts, s)
+			}
+		} else if o.loop {
 			s = "*" + s
 		}
 		parts = append(parts, s)
@@ -434,6 +493,8 @@ func runCodecSeq(c *Ctx, r *RuleRun) {
 			for _, o := range we {
 				if sz, known := typeSizes[o.typ]; known && !o.loop {
 					footerSize += sz
+				} else if known && o.count > 0 {
+					footerSize += sz * o.count
 				} else {
 					footerSize = -1
 					break
@@ -470,6 +531,37 @@ func runCodecSeq(c *Ctx, r *RuleRun) {
 					bufLen = arr.Len()
 				}
 			}
+		}
+		// the footer is read by a helper that is handed offset, whence and length: the constants at its call site
+		if hc, isCall := call.Call.Args[1].(*ssa.Call); isCall && hc.Call.StaticCallee() != nil && hc.Call.StaticCallee().Pkg == f.Pkg && len(hc.Call.StaticCallee().Blocks) > 0 {
+			h := hc.Call.StaticCallee()
+			subst := func(v ssa.Value) ssa.Value {
+				if pr, ok := unconv(v).(*ssa.Parameter); ok {
+					for i, q := range h.Params {
+						if q == pr && i < len(hc.Call.Args) {
+							return hc.Call.Args[i]
+						}
+					}
+				}
+				return v
+			}
+			eachInstr(h, func(ins ssa.Instruction) {
+				switch x := ins.(type) {
+				case *ssa.MakeSlice:
+					if k, ok := constInt(subst(x.Len)); ok && bufLen < 0 {
+						bufLen = k
+					}
+				case *ssa.Call:
+					if obj := p.ExtCallee(x); obj != nil && funcIs(obj, "os", "File", "Seek") && len(x.Call.Args) == 3 {
+						wh, ok1 := constInt(subst(x.Call.Args[2]))
+						off, ok2 := constInt(subst(x.Call.Args[1]))
+						if ok1 && ok2 && wh == 2 {
+							r.Check(int(-off) == footerSize, p.FnName(f), "footer seek", p.Pos(instrPos(hc)),
+								fmt.Sprintf("seeks %d from the end = encoded footer size", off), fmt.Sprintf("seeks %d from the end but the encoded footer has %d bytes", off, footerSize))
+						}
+					}
+				}
+			})
 		}
 		if bufLen >= 0 {
 			r.Check(int(bufLen) == footerSize, p.FnName(f), "footer buffer", p.Pos(instrPos(call)),
